@@ -1,6 +1,6 @@
 PROP = dict(
     engine="chain", harness="chain", driver="drv_chain",
-    props=["Hostd.Props.C01", "Hostd.Props.C01G", "Hostd.Gen.ChainTie", "Hostd.Gen.ChainSqlTie"],
+    props=["Hostd.Props.C01", "Hostd.Props.C01G", "Hostd.Props.C06End", "Hostd.Gen.ChainTie", "Hostd.Gen.ChainSqlTie"],
     pregen=[["go", "run", "./chaintable", "{repo}", "{lean}/Hostd/Gen/ChainTable.lean"],
             ["go", "run", "./sqlwhere", "{repo}", "{lean}/Hostd/Gen/ChainSql.lean"]],
     shard_extra=[dict(level="store"), dict(level="mgr")],
